@@ -458,6 +458,18 @@ def synthetic(lists, maxv):
 
 
 # ----------------------------------------------------------------------------------- replies
+def uvarint(n):
+    out = bytearray()
+    while True:
+        b = n & 0x7F
+        n >>= 7
+        if n:
+            out.append(b | 0x80)
+        else:
+            out.append(b)
+            return bytes(out)
+
+
 def reply_one(case):
     kind, rcls, _ = REG[case["req"]]
     _, pcls, pschema = REG[case["resp"]]
@@ -468,7 +480,12 @@ def reply_one(case):
     except Exception as e:  # noqa: BLE001
         return {"gen_exc": exc_name(e)}
     corr = case.get("corr", 4242)
-    header = struct.pack(">i", corr) + (b"\x00" if case["flex"] else b"")
+    header = struct.pack(">i", corr)
+    if case["flex"]:
+        # response header v1: correlation id + tagged fields (KIP-482: a client skips the tags it does not know)
+        tags = case.get("hdr_tags") or []
+        header += uvarint(len(tags)) + b"".join(uvarint(t) + uvarint(len(bytes.fromhex(h))) + bytes.fromhex(h)
+                                                  for t, h in tags)
     bio = io.BytesIO(header + body + TRAILER)
     try:
         req = rcls()
